@@ -125,6 +125,16 @@ func c20Scenarios(tier string) []*Scenario {
 		sc.Name = "stale-reader|" + rpcName(sc.RPCs[0]) + " >> " + rpcName(sc.RPCs[1])
 		out = append(out, sc)
 	}
+	// the receiver cannot decode one of the messages (its cloner refuses it) and carries on, or stops: the sender
+	// is held back all the same
+	for _, c := range [][]string{{"S0", "C", "R", "R", "R"}, {"S0", "C", "R", "R"}, {"S0", "C", "R*"}} {
+		for _, kind := range []string{"ss", "bd"} {
+			rpc := RPC{Kind: kind, Client: c, Handler: cat([]string{"r"}, sends("s", 6), []string{"ret:ok"})}
+			sc := sc1("C20", "s2c-decode-failure|"+rpcName(rpc), "inproc", "", rpc)
+			sc.Cloner = "failcopy:0s1"
+			out = append(out, sc)
+		}
+	}
 	// a stream opened from inside a handler with that handler's context (a relay): the same one slot per
 	// direction, whoever the caller is
 	for _, inner := range []RPC{
@@ -242,6 +252,8 @@ func c20Oracle(sc *Scenario, rec *Rec, s *mc.Sched) []mc.Violation {
 		if countOp(rpc.Client, "R") > 0 && len(rr.CliRecv) > 0 && rr.CliRecv[0] != tag(0, "s", 0) {
 			out = append(out, mc.Violation{Clause: "first-message-lost", Obs: fmt.Sprintf("the first receive after the Header() calls returned %s", rr.CliRecv[0])})
 		}
+	case "s2c-decode-failure":
+		// (the run-ahead monitor above is the oracle: receives that fail still count as started receives)
 	case "relay":
 		r1 := rec.RPCs[1]
 		for _, m := range r1.Monitor {
